@@ -2,6 +2,7 @@
 #
 
 import logging
+from copy import deepcopy
 
 import numpy as np
 
@@ -156,7 +157,7 @@ def repeatAndVarySequence(seq, poss, channels, names, args, iters):
         )
 
     newseq = Sequence()
-    newseq._awgspecs = seq._awgspecs
+    newseq._awgspecs = deepcopy(seq._awgspecs)
 
     no_of_steps = noofvals[0]
 
